@@ -112,16 +112,50 @@ func (x *Exec) doCall(st *State, in *ssa.Call) (forks []*State, done bool) {
 	if fv, ok := x.val(st, c.Value).(*FuncV); ok {
 		return x.callStatic(st, in, fv, args)
 	}
+	// a function value read from memory: case split over the function constants the path has stored (e.g. a table built by a
+	// package initialiser); the remaining case is an unknown callee
+	if ft, ok := x.val(st, c.Value).(*Term); ok && len(x.knownFuncs) > 0 {
+		var names []string
+		for n := range x.knownFuncs {
+			names = append(names, n)
+		}
+		sortStrings(names)
+		var distinct []*Term
+		for _, n := range names {
+			cand := x.knownFuncs[n]
+			if !types.Identical(cand.Fn.Signature.Params(), c.Signature().Params()) {
+				continue
+			}
+			ct := mkVar(n, SInt)
+			distinct = append(distinct, ct)
+			alt := st.clone()
+			x.assumeIn(alt, mkEq(ft, ct))
+			x.cur = alt
+			x.pushFrame(alt, cand, args, in)
+			forks = append(forks, alt)
+		}
+		x.cur = st
+		for i, d := range distinct {
+			x.assumeIn(st, mkNe(ft, d))
+			for _, e := range distinct[i+1:] {
+				_ = e
+			}
+		}
+	}
 	// dynamic call through a function value: unknown effect
 	x.note("uncontracted call: dynamic function value in %s", funcKey(in.Parent()))
 	x.havocAll(st, "dynamic call")
 	fr.vals[in] = x.freshValue("dyncall", in.Type())
-	return nil, false
+	return forks, false
 }
 
 func (x *Exec) callStatic(st *State, in *ssa.Call, fv *FuncV, args []Value) (forks []*State, done bool) {
 	fr := st.frame()
 	callee := fv.Fn
+	if x.inInit && callee.Name() == "init" {
+		fr.vals[in] = nil
+		return nil, false
+	}
 	if callee == x.fn && x.spec != nil && x.spec.BoundD > 0 {
 		// bounded mode: self-recursion is inlined up to the stated depth, deeper paths are cut
 		occ := 0
